@@ -98,7 +98,7 @@ structure PState where
   classes : List (Nat × ClassRec) := []
   /-- method catalog with each method's definitions, in registration order -/
   methods : List MethodRec := []
-  budget : Nat := 100000
+  budget : Nat := Generated.hashBudget
   pub : Pub := {}
   compiled : Option Compiled := none
   inst : Option Installed := none
